@@ -5,8 +5,8 @@ DESIGN.md section 7).  Two necessary conditions are decided by the solver:
  (1) seeds: in every kernel that places a key (count-min query/add x3 kinds, heavy hitters _add/_max_count) the column of
      row r is fasthash64(key, s_r) % width with the seeds s_0..s_{d-1} pairwise distinct FOR EVERY width (symbolic) --
      hash stubbed, depth 8;
- (2) non-degeneracy on the REAL fasthash64 (precise 64-bit multiplication, 8-byte symbolic keys): for row pairs (a, b)
-     and widths W the solver exhibits two keys that collide in row a but not in row b; `unsat` would mean the rows are
+ (2) non-degeneracy on the REAL placement kernels with the REAL fasthash64 inlined (precise 64-bit multiplication, 8-byte
+     symbolic keys): for row pairs (a, b) and widths W the solver exhibits two keys that collide in row a but not in row b; `unsat` would mean the rows are
      functionally dependent;
  (3) sensitivity on the REAL fasthash64: for every byte position of keys of the listed lengths the solver exhibits two byte
      values with different hashes; `unsat` = keys differing only there share their cell in EVERY row (replayed)."""
@@ -146,29 +146,63 @@ def _real_hash_term(bs, seed):
     return outs[0][1].t, ex
 
 
-def ob_independent(a, b, W, timeout_ms):
-    """witness query on the real fasthash64: keys colliding in row a but not in row b (and vice versa)"""
+def _kernel_cols(kind, bs, W):
+    """columns the REAL placement kernel (hash inlined, precise multiplication) assigns to key `bs` in a width-W sketch:
+    the query kernels leave them in their `buckets` argument"""
+    C = cmh.cm()
+    ex = Executor()
+    ex.uf_mul = False
+    st = State()
+    bits = {"cm_linear": 32, "cm_log16": 16, "cm_log8": 8}[kind]
+    sk = cmh.SymCM(st, "s", bits, W, DEPTH)
+    U = cmh.U[bits]
+    Wv, Dv = mk_int(types.uint64, W), mk_int(types.uint64, DEPTH)
+    disp = {32: C._query_linear, 16: C._query_log16, 8: C._query_log8}[bits]
+    maxv = MAX32 if bits == 32 else logh.UMAX[bits]
+    outs = ex.call_dispatcher(disp, st, [sk.cms, sk.bk, Wv, Dv, mk_int(U, maxv), SBytes(bs)])
+    outs = [(s_, v) for s_, v in outs if not (isinstance(v, tuple) and v and v[0] == "raise")]
+    if len(outs) != 1:
+        raise Unsupported(f"{kind}: {len(outs)} outcomes")
+    post = outs[0][0]
+    return [zx(c, 64) for c in post.heap[sk.bk.sid]], ex
+
+
+def _probe_cols(kind, W, keys):
+    """columns owned by each key, read off real sketches: add the key to an empty sketch, locate the non-zero cell per row"""
+    import numpy as np
+    C = cmh.cm()
+    cls = {"cm_linear": C.CountMinLinear, "cm_log16": C.CountMinLog16, "cm_log8": C.CountMinLog8}[kind]
+    out = []
+    for k in keys:
+        s_ = cls(W, DEPTH)
+        s_.add(k)
+        t = np.array(s_.cms)
+        out.append([int(np.argmax(t[r])) for r in range(DEPTH)])
+    return out
+
+
+def ob_independent(kind, a, b, W, timeout_ms):
+    """witness query on the real placement kernel with the real fasthash64: keys colliding in row a but not in row b
+    (and vice versa).  `unsat` = row b's column is a function of row a's column at this width."""
     stats = common.Stats()
     k1 = [z3.BitVec(f"a{i}", 8) for i in range(8)]
     k2 = [z3.BitVec(f"b{i}", 8) for i in range(8)]
-    (h1a, ex), (h2a, _), (h1b, _), (h2b, _) = _real_hash_term(k1, a), _real_hash_term(k2, a), _real_hash_term(k1, b), _real_hash_term(k2, b)
-    Wc = z3.BitVecVal(W, 64)
-    ca1, ca2, cb1, cb2 = z3.URem(h1a, Wc), z3.URem(h2a, Wc), z3.URem(h1b, Wc), z3.URem(h2b, Wc)
-    from sketchnu import hashes
-    for (x, y, lab) in ((ca1 == ca2, cb1 != cb2, f"collide in row {a}, differ in row {b}"), (cb1 == cb2, ca1 != ca2, f"collide in row {b}, differ in row {a}")):
-        r, m = common.z3check([x, y], timeout_ms, stats, label=f"fasthash64 rows ({a},{b}) width {W}: {lab}")
+    (c1, ex), (c2, _) = _kernel_cols(kind, k1, W), _kernel_cols(kind, k2, W)
+    funcs = sorted(ex.funcs_encoded)
+    ca1, ca2, cb1, cb2 = c1[a], c2[a], c1[b], c2[b]
+    for (x, y, lab, ra, rb) in ((ca1 == ca2, cb1 != cb2, f"collide in row {a}, differ in row {b}", a, b), (cb1 == cb2, ca1 != ca2, f"collide in row {b}, differ in row {a}", b, a)):
+        r, m = common.z3check([x, y], timeout_ms, stats, label=f"{kind} rows ({a},{b}) width {W}: {lab}")
         if r == "unsat":
-            cex = {"kind": "dependent-rows", "rows": [a, b], "width": W}
-            return {"status": "cex", "stats": stats.as_dict(), "funcs": sorted(ex.funcs_encoded), "cex": cex, "replay": replay(cex), "finding_key": "rows-dependent"}
+            cex = {"kind": "dependent-rows", "kernel": kind, "rows": [ra, rb], "width": W}
+            return {"status": "cex", "stats": stats.as_dict(), "funcs": funcs, "cex": cex, "replay": replay(cex), "finding_key": "rows-dependent"}
         if r != "sat":
-            return {"status": "unknown", "stats": stats.as_dict(), "funcs": sorted(ex.funcs_encoded), "note": f"{r} on {lab}"}
+            return {"status": "unknown", "stats": stats.as_dict(), "funcs": funcs, "note": f"{r} on {lab}"}
         K1 = bytes(ev(m, c) for c in k1)
         K2 = bytes(ev(m, c) for c in k2)
-        real = [int(hashes.fasthash64(K, s)) % W for K in (K1, K2) for s in (a, b)]
-        okreal = (real[0] == real[2]) != (real[1] == real[3])
-        if not okreal:
-            return {"status": "unknown", "stats": stats.as_dict(), "funcs": sorted(ex.funcs_encoded), "note": f"witness keys do not behave on the real hash: {real}"}
-    return {"status": "proved", "stats": stats.as_dict(), "funcs": sorted(ex.funcs_encoded), "note": "witness keys confirmed on the jitted fasthash64"}
+        p1, p2 = _probe_cols(kind, W, [K1, K2])
+        if not (p1[ra] == p2[ra] and p1[rb] != p2[rb]):
+            return {"status": "unknown", "stats": stats.as_dict(), "funcs": funcs, "note": f"witness keys do not behave on the real sketch: {p1} {p2}"}
+    return {"status": "proved", "stats": stats.as_dict(), "funcs": funcs, "note": "witness keys confirmed on real sketches"}
 
 
 def _ctx_bytes(L):
@@ -241,13 +275,13 @@ def replay(cex):
         return {"reproduced": len(fails) >= 4, "how": "CountMinLinear(width, 8): add key1 five times, query key2 that differs in one byte (probability of an all-row collision for an independent hash: width^-8)", "failed_clauses": fails[:4]}
     if cex["kind"] == "dependent-rows":
         a, b, W = cex["rows"][0], cex["rows"][1], cex["width"]
-        from sketchnu import hashes
         rnd = random.Random(3)
-        same = 0
-        for _ in range(400):
-            k = bytes(rnd.randrange(256) for _ in range(8))
-            same += (int(hashes.fasthash64(k, a)) % W) == (int(hashes.fasthash64(k, b)) % W)
-        return {"reproduced": same == 400, "how": "400 random 8-byte keys: column in row a always equals column in row b", "same": same}
+        keys = [bytes(rnd.randrange(256) for _ in range(8)) for _ in range(300)]
+        cols = _probe_cols(cex.get("kernel", "cm_linear"), W, keys)
+        pairs = [(i, j) for i in range(len(keys)) for j in range(i + 1, len(keys)) if cols[i][a] == cols[j][a]]
+        also = sum(1 for (i, j) in pairs if cols[i][b] == cols[j][b])
+        return {"reproduced": len(pairs) >= 20 and also == len(pairs), "pairs_colliding_in_first_row": len(pairs), "of_which_collide_in_second_row": also,
+                "how": f"300 random 8-byte keys placed in real empty sketches of width {W}: every pair that shares its cell in row {a} also shares it in row {b} (expected fraction for independent rows: 1/{W})"}
     widths = sorted(set([cex.get("width", 3), 3, 5, 7, 63]))
     fails = []
     rnd = random.Random(5)
@@ -289,9 +323,10 @@ def main():
     hhh.hh()
     tmo = 300000 if tier == "quick" else 1200000
     obs = [common.Ob(f"seeds distinct and modulo width: {k}", ob_seeds, (k, tmo), hard_s=tmo / 1000 * 2 + 120, bounds={"kernel": k, "depth": DEPTH, "width": f"symbolic 1..{W0}"}) for k in KINDS]
-    pairs = [(0, 1, 16), (3, 7, 16)] if tier == "quick" else [(a, b, W) for (a, b) in ((0, 1), (0, 7), (3, 7), (2, 5), (1, 6)) for W in (2, 16, 61)]
-    for (a, b, W) in pairs:
-        obs.append(common.Ob(f"real fasthash64: rows {a},{b} not functionally dependent at width {W}", ob_independent, (a, b, W, tmo), hard_s=tmo / 1000 * 4 + 120, bounds={"rows": [a, b], "width": W, "keys": "8 symbolic bytes each"}))
+    pairs = [("cm_linear", 0, 1, 16), ("cm_linear", 3, 7, 16), ("cm_log16", 1, 2, 32), ("cm_log8", 0, 5, 8), ("cm_linear", 2, 6, 13)] if tier == "quick" else \
+        [(k, a, b, W) for k in ("cm_linear", "cm_log16", "cm_log8") for (a, b) in ((0, 1), (0, 7), (3, 7), (2, 5), (1, 6)) for W in (2, 16, 61, 128)]
+    for (k, a, b, W) in pairs:
+        obs.append(common.Ob(f"real {k} placement with real fasthash64: rows {a},{b} not functionally dependent at width {W}", ob_independent, (k, a, b, W, tmo), hard_s=tmo / 1000 * 4 + 120, bounds={"kernel": k, "rows": [a, b], "width": W, "keys": "8 symbolic bytes each"}))
     sensL = (list(range(1, 18)) + [24, 31, 32, 33, 63, 64, 65, 127, 128, 129, 255, 256, 257, 264]) if tier == "quick" else (list(range(1, 131)) + list(range(255, 265)) + [511, 512, 513])
     for L in sorted(sensL, reverse=True):
         obs.append(common.Ob(f"real fasthash64: every byte of a {L}-byte key influences the hash", ob_sensitive, (L, tmo), hard_s=tmo / 1000 + 600, bounds={"key_len": L, "positions": "all", "byte values": "symbolic pair", "other bytes": "fixed pseudo-random context"}))
